@@ -423,21 +423,31 @@ def leaf_args(r, kind, pre, name, mode="any", jsonable=False):
         return tuple(types(r)), {}
     if name == "keys_contain":
         return (), {"key": anyv() if wild else hk()}
+    def mixed_keys():
+        # real keys with an occasional element of any type among them (e.g. an unhashable one after a key that
+        # is present: the count is then undefined, wherever the odd element stands)
+        return [(anyv() if r.pct() < 30 else hk()) for _ in range(r.between(1, 4))]
+
     if name in VARPOS_KEYS:
+        if wild and r.coin():
+            return tuple(mixed_keys()), {}
         el = anyv if wild else hk
         return tuple(el() for _ in range(r.between(1, 3))), {}
     if name in N_OF:
         if wild:
-            return (), {"N": anyv(), "keys": anyv() if r.coin() else [hk() for _ in range(r.between(1, 3))]}
+            c = r.pct()
+            return (), {"N": anyv() if c < 60 else r.between(0, 3),
+                        "keys": anyv() if c < 30 else mixed_keys() if c < 70 else [hk() for _ in range(r.between(1, 3))]}
         return (), {"N": r.between(0, 3), "keys": [hk() for _ in range(r.between(1, 3))]}
     if name in ONE_OF_KW:
         if wild:
-            return (), {"keys": anyv() if r.coin() else [hk() for _ in range(r.between(1, 3))]}
+            c = r.pct()
+            return (), {"keys": anyv() if c < 35 else mixed_keys() if c < 75 else [hk() for _ in range(r.between(1, 3))]}
         return (), {"keys": [hk() for _ in range(r.between(1, 3))]}
     if name == "items_contain":
         kw = {}
         for _ in range(r.between(1, 2)):
-            kw[r.choice(["a", "b", "abc", "c", "x y", "1", ""])] = anyv() if (mode == "any" or jsonable) else (sc() if r.coin() else value(r, 1))
+            kw[r.choice(["a", "b", "abc", "c", "x y", "1", ""])] = None if r.pct() < 12 else anyv() if (mode == "any" or jsonable) else (sc() if r.coin() else value(r, 1))
         return (), kw
     raise AssertionError(name)
 
